@@ -83,7 +83,7 @@ CHECKS = {
    "Precondition from fq's usage: a closure implicitly finished by an outer finish is not invoked later. Race detector only sees executed interleavings.",
    "race detector + exhaustive sequential model check of executions + porcupine linearizability of recorded histories", "DESIGN.md §3 C20"),
  "C01": ("exploration",
-   "History + executable model: random reader compositions (13 reader kinds incl. real files and fq's open stack) are built in lock-step with a reference bit string; every read/seek/clone/byte-view/writer call of 60k (quick) / 3M (thorough) histories plus exhaustive Read64/Write64 and exhaustive (offset,length) sweeps over short buffers is checked online. Holds on the executions observed, nothing more.",
+   "History + executable model: random reader compositions (15 reader kinds incl. real files, fq's open stack, leaves that read short or report EOF with data, and leaves that fail with a sticky injected I/O error) are built in lock-step with a reference bit string; every read/seek/clone/byte-view/writer call of 60k (quick) / 3M (thorough) histories plus exhaustive Read64/Write64 and exhaustive (offset,length) sweeps over short buffers is checked online; an operation that hits the injected fault is judged by a weak oracle (delivered bits right, an I/O error never reported as end-of-data); no-progress is decided on reader-call counts per operation, not on time. Holds on the executions observed, nothing more.",
    "Trusts the harness's own bit-string model (independent of bitio.Read64/Write64). Negative seek targets/read offsets and seek-from-end on padded byte views are outside the domain.",
    "runtime monitor: online reference-model checker over generated call histories", "DESIGN.md §3 C01"),
 }
